@@ -167,6 +167,11 @@ def run(ctx):
     from .c04 import r1_r2_site
     for fname in ('disconnect', '_handle_disconnect'):
         r1_r2_site(ctx, 'sync', fname)
+    ctx.rule('C04.R10', 'the default gate of disconnect(), can_disconnect, '
+             'answers through is_connected (it sees the disconnecting mark) '
+             '(shared rule)', floor=4)
+    from .c04 import r10_can_disconnect
+    r10_can_disconnect(ctx)
     ctx.rule('C20.R4', 'whoever marks the client runs the disconnect handler: '
              'every path with a pre_disconnect mark triggers the '
              '\'disconnect\' event exactly once after it, whatever it '
